@@ -110,6 +110,7 @@ pub(crate) fn eval_with_instructions(
                     variables,
                     env,
                     all_instructions.len() - 1,
+                    true,
                 );
 
                 match flow_result {
@@ -132,17 +133,12 @@ pub(crate) fn eval_instructions(
     variables: &mut HashMap<String, String>,
     env: &mut Env,
     start_line: usize,
+    stop_on_halt: bool,
 ) -> (Option<CommandResult>, Option<String>) {
     let mut line = start_line;
     let mut flow_output = None;
     let mut flow_result = None;
     loop {
-        // functions called as conditions and script based commands run their lines here and not in the runner's
-        // main loop: a halt request ends this flow as well
-        if env.halt.load(Ordering::SeqCst) {
-            break;
-        }
-
         let instruction = if instructions.len() > line {
             instructions[line].clone()
         } else {
@@ -185,7 +181,19 @@ pub(crate) fn eval_instructions(
                                 ));
                                 break;
                             }
-                            GoToValue::Line(line_number) => line = line_number,
+                            GoToValue::Line(line_number) => {
+                                // a function called as a condition runs its lines here and not in the runner's
+                                // main loop: a halt request ends it where it would go round again (a flow without
+                                // backward jumps ends by itself and gives its proper answer)
+                                if stop_on_halt
+                                    && line_number <= line
+                                    && env.halt.load(Ordering::SeqCst)
+                                {
+                                    break;
+                                }
+
+                                line = line_number
+                            }
                         }
                     }
                     CommandResult::Continue(output) => {
